@@ -81,6 +81,10 @@ func runC02(c *Ctx) {
 	ruleDataSource(c) // a second buffer between the connection and the automaton over-reads past the end marker
 	ruleDrains(c)
 	ruleDrainFailureCloses(c)
+	// where the message is NOT drained (backend panic, failed drain) the connection is closed instead — and the command
+	// loop must then really stop: it tests the closed state before every dispatch, whatever the configuration
+	c.R.Rule("R-no-dispatch-after-close", "E2+E4+call graph", "after a dispatch that may close the connection the command loop passes a test of state written by Conn.Close before it dispatches another command", 2)
+	ruleNoDispatchAfterClose(c)
 	ruleLineLimitCounting(c) // the limiter's refusal must stay in force (count past the limit): a drain that resumes after a refused segment reads a stream with a hole in it
 }
 
